@@ -7,8 +7,10 @@ Import ListNotations.
 (* ------------------------------------------------------------------ one task *)
 (* any load_outputs mode: a task that ends Executed had a reason -- no result under the target's
    current key, caching disabled, taint, no-cache, a failing output check, or (mode all) a failed
-   restore; a restore fails only for what the CACHE holds (definitions differ / a blob is missing)
-   or for the KIND of what sits at a file output's path (a directory: known finding C06-F3) *)
+   restore; a restore fails only for what the CACHE holds (restore_failed: the recorded output
+   definitions differ from the declared ones / a recorded blob is missing from the CAS) -- nothing that
+   sits in the workspace can make it fail (a directory at a file output's path is replaced since the
+   repair of C06-F3) *)
 Theorem C02_exec_only_if : forall (H : str -> str) cfg s i t b,
   i < rt_len b ->
   rt_status (get_rt (process_target H cfg s i t b) i) = TExecuted ->
@@ -17,7 +19,7 @@ Theorem C02_exec_only_if : forall (H : str -> str) cfg s i t b,
      cfg_cache cfg = false \/ pt_tainted t b = true \/ td_nocache t = true \/
      check_ok (b_world b) t = false \/
      (cfg_mode cfg = LAll /\ exists r, rlookup (pt_key H s t dh) (c_results (b_cache b)) = Some r /\
-        restore_failed (b_cache b) (w_ws (b_world b)) t r)).
+        restore_failed (b_cache b) t r)).
 Proof. exact exec_only_if. Qed.
 Print Assumptions C02_exec_only_if.
 
@@ -30,13 +32,13 @@ Theorem C02_exec_label_only_if : forall (H : str -> str) cfg s i t b,
      cfg_cache cfg = false \/ pt_tainted t b = true \/ td_nocache t = true \/
      check_ok (b_world b) t = false \/
      (exists r, rlookup (pt_key H s t dh) (c_results (b_cache b)) = Some r /\
-        restore_failed (b_cache b) (w_ws (b_world b)) t r)).
+        restore_failed (b_cache b) t r)).
 Proof. exact exec_label_only_if. Qed.
 Print Assumptions C02_exec_label_only_if.
 
-(* the converse: a present result that can be restored is a hit and starts no command, whatever
-   sits at the output paths (absent, parent missing, any file content) short of a directory at a
-   FILE output's path *)
+(* the converse: a present result whose blobs are in the CAS is a hit and starts no command, whatever
+   sits at the output paths (absent, parent missing, any file content, a directory at a file output's
+   path) *)
 Theorem C02_hit_if : forall (H : str -> str) cfg s i t b dh r,
   cfg_mode cfg = LAll -> i < rt_len b -> rt_loaded (get_rt b i) = false ->
   dep_hashes s b (td_deps t) = Some dh ->
@@ -44,7 +46,6 @@ Theorem C02_hit_if : forall (H : str -> str) cfg s i t b dh r,
   pt_tainted t b = false -> td_nocache t = false -> cfg_cache cfg = true ->
   check_ok (b_world b) t = true -> outputs_match t r = true ->
   (forall def dg, In (def, dg) (r_outs r) -> alookup dg (c_cas (b_cache b)) <> None) ->
-  (forall o, In o (td_outs t) -> o_kind o = OFile -> ws_get (out_path t o) (w_ws (b_world b)) <> PWrongKind) ->
   rt_status (get_rt (process_target H cfg s i t b) i) = THit /\
   rt_ohash (get_rt (process_target H cfg s i t b) i) = Some (r_outhash r) /\
   b_exec (process_target H cfg s i t b) = b_exec b /\
@@ -70,8 +71,9 @@ Proof. exact run_history_cache_complete. Qed.
 Print Assumptions C02_run_history_cache_complete.
 
 (* ------------------------------------------------------------------ the headline *)
-(* a successful build (mode all, cache on) followed by ANY perturbation of output paths that puts
-   no directory anywhere, followed by the same build: nothing runs and the build succeeds.
+(* a successful build (mode all, cache on) followed by ANY perturbation of output paths (deleting,
+   removing parents, other content, a directory where a file belongs), followed by the same build:
+   nothing runs and the build succeeds.
    Guards: the initial cache is complete; the change keys of the first build are pairwise distinct;
    no selected target is tagged no-cache. *)
 Theorem C02_noop_rebuild : forall (H : str -> str) cfg s roots w c (ps : list (str * pstate)),
@@ -79,7 +81,6 @@ Theorem C02_noop_rebuild : forall (H : str -> str) cfg s roots w c (ps : list (s
   br_ok (build H cfg s roots w c) = true ->
   distinct_keys (build_state H cfg s roots w c) = true ->
   no_nocache_sel s (selection s roots) = true ->
-  forallb (fun p => not_wk (snd p)) ps = true ->
   let r1 := build H cfg s roots w c in
   let w' := mkWorld (apply_perturbs ps (w_ws (br_world r1))) (w_ext (br_world r1)) in
   let r2 := build H cfg s roots w' (br_cache r1) in
@@ -103,7 +104,6 @@ Theorem C02_noop_rebuild_labels : forall (H : str -> str) cfg s roots w c (ps : 
   br_ok (build H cfg s roots w c) = true ->
   distinct_labels s = true ->
   no_nocache_sel s (selection s roots) = true ->
-  forallb (fun p => not_wk (snd p)) ps = true ->
   let r1 := build H cfg s roots w c in
   let w' := mkWorld (apply_perturbs ps (w_ws (br_world r1))) (w_ext (br_world r1)) in
   let r2 := build H cfg s roots w' (br_cache r1) in
@@ -238,12 +238,13 @@ Proof. exact build_fields. Qed.
 Print Assumptions C02_build_state_is_build.
 
 (* ------------------------------------------------------------------ non-vacuity (H := hex_enc, injective) *)
-(* a <- b <- alias x <- c; build, delete a's output, remove the parent of b's, corrupt c's; rebuild *)
+(* a <- b <- alias x <- c; build, put a directory where a's (file) output belongs, remove the parent of
+   b's, corrupt c's; rebuild *)
 Theorem C02_noop_rebuild_nonvacuous :
   br_ok C02_examples.r1 = true /\ length (br_exec C02_examples.r1) = 3 /\
   distinct_keys (build_state hex_enc C02_examples.cfgA C02_examples.sx [3] C02_examples.w0 empty_cache) = true /\
   no_nocache_sel C02_examples.sx (selection C02_examples.sx [3]) = true /\
-  forallb (fun p => not_wk (snd p)) C02_examples.ps = true /\
+  existsb (fun p => C02_examples.is_wk (snd p)) C02_examples.ps = true /\
   br_exec C02_examples.r2 = [] /\ br_ok C02_examples.r2 = true /\
   br_status C02_examples.r2 = [THit; THit; THit; THit].
 Proof. exact C02_examples.noop_rebuild_nonvacuous. Qed.
@@ -265,7 +266,7 @@ Proof. exact C02_examples.exec_only_if_nonvacuous. Qed.
 Print Assumptions C02_exec_only_if_nonvacuous.
 
 Theorem C02_hit_if_nonvacuous :
-  ws_get ["p";"/";"a";".";"o"]%char (w_ws (b_world C02_examples.b_second)) = PAbsent /\
+  ws_get ["p";"/";"a";".";"o"]%char (w_ws (b_world C02_examples.b_second)) = PWrongKind /\
   rt_status (get_rt (process_target hex_enc C02_examples.cfgA C02_examples.sx 0 C02_examples.ta
                                     C02_examples.b_second) 0) = THit /\
   b_exec (process_target hex_enc C02_examples.cfgA C02_examples.sx 0 C02_examples.ta C02_examples.b_second)
